@@ -5,8 +5,8 @@
 //      non-identifier values: implementation vs Lean transcription (bytes + count) and vs the
 //      word-level specification; `trtok`: arbitrary bytes (ill-formed UTF-8 included) judged against
 //      the token stream the real lexer reports.
-//      `refs` / `refstrict`: ManagedText::TranslateRaw on reference texts (C17 model + spec; strict
-//      byte-level reading = recorded finding, skipped with VERIF_SKIP_KNOWN=1).
+//      `refs` / `refstrict`: ManagedText::TranslateRaw on reference texts (C17 model + spec; `refstrict`
+//      = the strict byte-level oracle of this package: only the bytes of a renamed name change).
 //  (b) RSForm histories with SetAliasFor(substitute = true/false), ResetAliases and content edits:
 //      after every renaming the whole content (definitions, conventions, raw term / definition
 //      texts) and — when the freshness proviso holds — parse status, typification, argument
@@ -133,7 +133,7 @@ static void oneTrTok(const std::string& text, const StrSubstitutes& m, bool loca
 }
 
 // reference texts: ManagedText::TranslateRaw; `strict` = judged by "only the bytes of the name change"
-// (recorded finding C08-reference-respelled: the code re-spells the whole reference)
+// (translateRefsStrict; the former finding C08-reference-respelled is repaired in the code)
 static void oneRefs(const std::string& text, const StrSubstitutes& m, bool strict) {
   lang::ManagedText t{ text };
   t.TranslateRaw(CreateTranslator(m));
@@ -416,10 +416,9 @@ int main() {
   }
   {
     vh::Rng sub(rng.next());
-    const bool skipKnown = std::getenv("VERIF_SKIP_KNOWN") != nullptr && std::string(std::getenv("VERIF_SKIP_KNOWN")) == "1";
     vh::forkedEmit([&] {
       const StrSubstitutes one{ { "X1", "X2" } };
-      for (const auto& t : TEXTS) { oneRefs(t, one, false); if (!skipKnown) oneRefs(t, one, true); }
+      for (const auto& t : TEXTS) { oneRefs(t, one, false); oneRefs(t, one, true); }
       const int NR = deep ? 8000 : 800;
       for (int i = 0; i < NR; ++i) {
         const auto text = genRefText(sub);
@@ -430,7 +429,7 @@ int main() {
         else if (shape == 2) { m[sub.pick(SV{ "X1", "X11", "D1", "x1" })] = sub.pick(NEWNAMES); }
         else { m["X1"] = "X1"; m["D12"] = "D1"; }
         oneRefs(text, m, false);
-        if (!skipKnown && sub.chance(1, 2)) oneRefs(text, m, true);
+        if (sub.chance(1, 2)) oneRefs(text, m, true);
       }
     }, "c08 refs chunk");
   }
